@@ -17,7 +17,7 @@ CONSTANTS Cats,        \* categories (may be string prefixes of one another, may
           FilterNames, \* subset of the names understood by FilterDef
           Limits,      \* subset of Nat; 0 stands for "no limit"
           Randoms,     \* subset of BOOLEAN: ordered / random listing
-          Ops,         \* subset of {"get","getmeta","unknown","list","default","mutate","resave"}
+          Ops,         \* subset of {"get","getmeta","unknown","list","default","mutate","resave","failsave"}
           Probes,      \* subset of BOOLEAN: is the id looked up (get / get-metadata) between create and save?
           MaxSaves, MaxQueries,
           Population   \* sequence of [cat, meta] already saved in the initial state
@@ -65,10 +65,20 @@ Query(k, i) ==
 
 \* a fetched recording is saved again under its own id (e.g. after adding metadata): it replaces itself, the store
 \* still holds one recording with that id
-Resave(i) ==
+\* ... the metadata added before the re-save (m; absent entries add nothing) is merged into the stored metadata
+MergeMeta(old, new) == [k \in {"k1", "k2", "inc"} |-> IF new[k] = Absent THEN old[k] ELSE new[k]]
+Resave(i, m) ==
     /\ "resave" \in Ops /\ nq < MaxQueries
     /\ i \in 1 .. Len(saved)
-    /\ ev' = [Ev0 EXCEPT !.kind = "resave", !.id = i, !.cat = saved[i].cat, !.meta = saved[i].meta]
+    /\ saved' = [saved EXCEPT ![i].meta = MergeMeta(@, m)]
+    /\ ev' = [Ev0 EXCEPT !.kind = "resave", !.id = i, !.cat = saved[i].cat, !.meta = m]
+    /\ nq' = nq + 1
+
+\* a save that fails inside the cassette (the recording cannot be serialised): nothing of it is stored, later lookups
+\* and fetches behave as if it had never been attempted
+FailedSave(cat) ==
+    /\ "failsave" \in Ops /\ nq < MaxQueries
+    /\ ev' = [Ev0 EXCEPT !.kind = "failsave", !.cat = cat]
     /\ nq' = nq + 1
     /\ UNCHANGED saved
 
@@ -105,7 +115,8 @@ Next ==
     \/ \E c \in Cats, m \in Metas, p \in Probes : Save(c, m, p)
     \/ \E k \in Ops, i \in 1 .. MaxSaves : Query(k, i)
     \/ \E u \in {"fresh", "prefix", "extension", "othercat"} : GetUnknown(u)
-    \/ \E i \in 1 .. MaxSaves : Resave(i)
+    \/ \E i \in 1 .. MaxSaves, m \in Metas : Resave(i, m)
+    \/ \E c \in Cats : FailedSave(c)
     \/ \E c \in Cats, fn \in FilterNames, l \in Limits, r \in Randoms : List(c, fn, l, r)
     \/ \E c \in Cats, w \in BOOLEAN, l \in Limits : ListDefault(c, w, l)
 
